@@ -165,7 +165,8 @@ def batchOpenSinglePoint (r γ : Nat) (polys : List (List Nat)) (nbDigests : Nat
     Except Err (Nat × List Nat) :=
   if nbDigests ≠ polys.length then .error .nbDigests
   else if polys.any (fun p => p.length = 0 ∨ p.length > pk.length) then .error .polySize
-  else if polys.length = 0 then .error .panic   -- `res.ClaimedValues[nbDigests-1]` (in a goroutine: the process dies)
+  else if polys.length = 0 then .error .zeroDigests   -- PROPERTY-SIDE: the empty batch is refused like FoldProof / BatchVerify* refuse it
+                                                       -- (kzg.go indexes `res.ClaimedValues[nbDigests-1]` in a goroutine: the process dies)
   else
     let vals := polys.map (fun p => eval r p z)
     let fe := foldEvals r γ vals
@@ -202,6 +203,44 @@ def batchVerifyMultiPoints (r : Nat) (vk : VK) (lams : List Nat) (digests : List
   else if digests.length = 1 then     -- `return Verify(&digests[0], &proofs[0], points[0], vk)`
     .ok (verify r vk (digests.getD 0 0) (proofs.getD 0 (0, 0)).1 (proofs.getD 0 (0, 0)).2 (points.getD 0 0))
   else .ok (multiFold r vk lams digests proofs points)
+
+/-! ### histories of the serialisation API (shared readers, re-used destinations) and of a setup ceremony -/
+
+/-- a prefix-exact codec: `dec` takes exactly the bytes `enc` wrote and leaves the rest of the stream
+(what `WriteTo` / `ReadFrom` of SRS, ProvingKey, VerifyingKey, OpeningProof, BatchOpeningProof, MpcSetup must be) -/
+structure Codec (α : Type) where
+  enc : α → List UInt8
+  dec : List UInt8 → Option (α × List UInt8)
+  exact : ∀ a rest, dec (enc a ++ rest) = some (a, rest)
+
+/-- `n` calls of `ReadFrom` on ONE reader: the objects in order and what is left of the stream -/
+def decMany {α : Type} (c : Codec α) : Nat → List UInt8 → Option (List α × List UInt8)
+  | 0, s => some ([], s)
+  | n+1, s =>
+    match c.dec s with
+    | none => none
+    | some (a, rest) =>
+      match decMany c n rest with
+      | none => none
+      | some (as, t) => some (a :: as, t)
+
+/-- `C11 stream`: (objects read back, bytes left on the reader) for `k` objects followed by `trailer` bytes
+(`C11_stream_roundtrip`: all of them, and exactly the trailer) -/
+def streamAnswer (k trailer : Nat) : Nat × Nat := (k, trailer)
+
+/-- setup ceremony: transcript `k` (after `k` contributions) carries the hash of transcript `k−1` as its challenge;
+sha256 has no collision on the chain, so `prev.Verify(next)` accepts the link exactly when `next` is the successor of `prev`
+(the update proofs of honest contributions are valid) -/
+def linkOk (prev next : Nat) : Bool := next == prev + 1
+
+/-- `prev.Verify(&q); prev = q` along the transcripts that are read back -/
+def chainVerdicts (prev : Nat) : List Nat → List Bool
+  | [] => []
+  | t :: ts => linkOk prev t :: chainVerdicts t ts
+
+/-- the transcripts 1..rounds of one ceremony without the one of index `drop` (0-based) -/
+def phasesOf (rounds : Nat) (drop : Option Nat) : List Nat :=
+  ((List.range rounds).filter (fun i => some i != drop)).map (· + 1)
 
 /-! ### line protocol  `C11 <op> <curve> …`  (curve ∈ bn254, bls12_377, bls12_381, bls24_315, bls24_317, bw6_633, bw6_761) -/
 
@@ -285,6 +324,62 @@ def handleOp (r : Nat) (op : String) (a : List String) : String :=
       let zs := parseList (arg 4)
       showVerdict (batchVerifyMultiPoints r srs.vk lams cs prs zs)
   | "ser" => "1"  -- serialisation round trips: the model is the identity (codec theorems are C07's)
+  | "stream" => -- stream <size> <tau> <rdr> <kinds> <h> <vs> <trailer> → <objects read> <bytes left> 1
+    match newSRS r (num 0) (parseTau (arg 1)) with
+    | .error e => e.show
+    | .ok _ =>
+      let kinds := (arg 3).splitOn ","
+      let known := ["srs", "srsraw", "srsunsafe", "srsunsafec", "pk", "pkraw", "pkunsafe", "vk", "vkraw", "proof", "bproof",
+        "mpc1", "mpc2", "mpc3", "dump"]
+      if a.length != 7 || kinds.any (fun k => !known.contains k) then "bad-op"
+      else
+        let (k, t) := streamAnswer kinds.length (num 6)
+        toString k ++ " " ++ toString t ++ " 1"
+  | "reread" => -- reread <kind> <size1> <tau1> <size2> <tau2> <coeffs> <z>: the destination IS string 2, whatever it held
+    match newSRS r (num 1) (parseTau (arg 2)) with
+    | .error e => e.show
+    | .ok _ =>
+      match newSRS r (num 3) (parseTau (arg 4)) with
+      | .error e => e.show
+      | .ok srs =>
+        if !["srs", "srsraw", "srsunsafe", "srsunsafec", "pk", "pkraw", "pkunsafe", "vk", "vkraw", "dump"].contains (arg 0)
+          || a.length != 7 then "bad-op"
+        else
+        let p := parseList (arg 5); let z := num 6
+        let out := toHex srs.pk.length ++ " 1"
+        match commit r p srs.pk with
+        | .error e => out ++ " " ++ e.show
+        | .ok c =>
+          match openAt r p z srs.pk with
+          | .error e => out ++ " " ++ toHex c ++ " " ++ e.show
+          | .ok (H, v) =>
+            out ++ " " ++ toHex c ++ " " ++ toHex v ++ " " ++ toHex H ++ " " ++ boolStr (verify r srs.vk c H v z)
+  | "rereadp" => -- rereadp <kind> <h1> <vs1> <h2> <vs2>: the destination holds proof 2
+    let vs2 := (parseList (arg 4)).map (· % r)
+    if a.length != 5 then "bad-op"
+    else if arg 0 == "proof" then toHex (num 3 % r) ++ " " ++ toHex (vs2.headD 0)
+    else if arg 0 == "bproof" then toHex (num 3 % r) ++ " " ++ showList vs2
+    else "bad-op"
+  | "mpcchain" => -- mpcchain <size> <rounds> <mode> <drop|-> <rdr> <trailer> → verdict of every link
+    let n := num 0; let rounds := num 1
+    if a.length != 6 || n < 2 || n > 64 || rounds < 1 || rounds > 8
+        || !["fresh", "reuse", "stream", "streamreuse"].contains (arg 2) then "bad-op"
+    else
+      let drop := if arg 3 == "-" then none else some (num 3)
+      " ".intercalate ((chainVerdicts 0 (phasesOf rounds drop)).map boolStr)
+  | "seal" =>   -- seal <size> <rounds> <after>: the string handed out is a value; an honest proof made with it verifies (C11_completeness)
+    let n := num 0
+    if a.length != 3 || n < 2 || n > 64 || num 1 > 8
+        || ((arg 2).splitOn "+").any (fun t => !["none", "seal", "contribute", "write"].contains t) then "bad-op"
+    else "1 1"
+  | "bopen0" => -- bopen0 <size> <tau> <z>: BatchOpenSinglePoint of the empty batch
+    match newSRS r (num 0) (parseTau (arg 1)) with
+    | .error e => e.show
+    | .ok srs =>
+      if a.length != 3 then "bad-op"
+      else match batchOpenSinglePoint r 0 [] 0 (num 2) srs.pk with
+        | .error e => e.show
+        | .ok _ => "accepted"
   | _ => "bad-op"
 
 def handle : List String → String
